@@ -361,8 +361,50 @@ def run_word(case):
     return {"verdict": HELD, "cov": cov, "nt": "word:%d:%s:%d" % (bits, expect, len(mem))}
 
 
+def run_target_sizes(case):
+    """Size-of relations that must hold for whatever target the module is compiled for (also --wasm, whose output cannot be run
+    here): the folded results are read off the IR (`ret iN <value>` of one function per size)."""
+    _, seed, i = case
+    rng = common.rng_for(seed, PROP, "target_sizes", i)
+    wasm = i % 2 == 0
+    elems = ["&u8", "&&i32", "usize", "&Node", "&[]u8", "Node", "u16", "&[4]u64", rng.choice(PRIMS)]
+    n = rng.randrange(1, 6)
+    queries = {}
+    for k, e in enumerate(elems):
+        queries["e%d" % k] = e
+        queries["a%d" % k] = "[%d]%s" % (n, e)
+    src = "struct Node\n{\n\tnext: &Node,\n\tvalue: u8,\n}\n\n" + "".join(
+        "pub fn size_%s() -> usize\n{\n\treturn: |:%s|\n}\n\n" % (name, ty) for name, ty in queries.items())
+    k, r = common.call({"op": "alpha_compile", "files": [{"path": "sizes.pn", "src": src}], "ir": True, "module_ir": False, "wasm": wasm},
+                       build="chk", timeout=60)
+    replay = {"source": src, "wasm": wasm}
+    cov = {"target_size_programs": 1, "target_size_programs_wasm" if wasm else "target_size_programs_native": 1}
+    if k != "resp" or r["status"] != "ok":
+        return {"verdict": VIOLATED, "sig": "size-of program not compiled (%s)" % ("wasm" if wasm else "native"), "detail": str(r)[:300],
+                "replay": replay, "cov": cov}
+    got = {}
+    for m in re.finditer(r"define [^@]*@size_(\w+)\(\)[^{]*\{(.*?)\n\}", r["ir"], re.S):
+        rm = re.search(r"ret i\d+ (\d+)", m.group(2))
+        if rm:
+            got[m.group(1)] = int(rm.group(1))
+    if len(got) != len(queries):
+        return {"verdict": INCONCLUSIVE, "detail": "size-of results not folded to constants in the IR", "cov": cov}
+    word = got["e2"]        # usize
+    for kk, e in enumerate(elems):
+        if got["a%d" % kk] != n * got["e%d" % kk]:
+            return {"verdict": VIOLATED, "sig": "|:[N]T| != N * |:T| (%s)" % ("wasm" if wasm else "native"),
+                    "detail": {"T": e, "N": n, "sizeof_T": got["e%d" % kk], "sizeof_array": got["a%d" % kk]}, "replay": replay, "cov": cov}
+        if e.startswith("&") and not e.startswith("&[]") and got["e%d" % kk] != word:
+            return {"verdict": VIOLATED, "sig": "size of a pointer differs from the size of usize (%s)" % ("wasm" if wasm else "native"),
+                    "detail": {"T": e, "sizeof_T": got["e%d" % kk], "sizeof_usize": word}, "replay": replay, "cov": cov}
+    if got["e5"] < got["e3"] + 1:
+        return {"verdict": VIOLATED, "sig": "a structure is smaller than its members (%s)" % ("wasm" if wasm else "native"),
+                "detail": {"Node": got["e5"], "pointer": got["e3"]}, "replay": replay, "cov": cov}
+    return {"verdict": HELD, "cov": cov, "nt": "target_sizes:%s:%d:%d" % ("wasm" if wasm else "native", n, word)}
+
+
 def run_case(case):
-    return {"const": run_const, "len": run_length, "layout": run_layout, "word": run_word}[case[0]](case)
+    return {"const": run_const, "len": run_length, "layout": run_layout, "word": run_word, "target_sizes": run_target_sizes}[case[0]](case)
 
 
 def replay_file(path):
@@ -385,6 +427,7 @@ def main(tier, seed, replay=None):
     cases += [("len", seed, i) for i in range(270 if q else 4500)]
     cases += [("layout", seed, i) for i in range(300 if q else 6000)]
     cases += [("word", seed, i) for i in range(300 if q else 3000)]
+    cases += [("target_sizes", seed, i) for i in range(40 if q else 400)]
     for r in common.run_sharded(run_case, cases):
         if r.get("verdict") is None and "harness_error" not in r:
             run.merge_counters(r.get("cov"))
